@@ -94,9 +94,17 @@ func (bp BundlePart) Load() (b bpv7.Bundle, err error) {
 
 // calcExpirationDate for a Bundle.
 func calcExpirationDate(b bpv7.Bundle) time.Time {
-	// TODO: check Bundle Age Block
-	return b.PrimaryBlock.CreationTimestamp.DtnTime().Time().Add(
-		time.Duration(b.PrimaryBlock.Lifetime) * time.Millisecond)
+	lifetime := time.Duration(b.PrimaryBlock.Lifetime) * time.Millisecond
+
+	// A Bundle from a node without a clock has a zero creation time; what is left of its lifetime follows from its age.
+	if b.PrimaryBlock.CreationTimestamp.IsZeroTime() {
+		if ageBlock, err := b.ExtensionBlock(bpv7.ExtBlockTypeBundleAgeBlock); err == nil {
+			age := time.Duration(ageBlock.Value.(*bpv7.BundleAgeBlock).Age()) * time.Millisecond
+			return time.Now().Add(lifetime - age)
+		}
+	}
+
+	return b.PrimaryBlock.CreationTimestamp.DtnTime().Time().Add(lifetime)
 }
 
 // bundlePartPath returns a path for a Bundle.
